@@ -239,6 +239,27 @@ class SmallSet {
   template <class InputIt>
   SmallSet(InputIt first, InputIt last, const Alloc &alloc) : SmallSet(first, last, Compare(), alloc) {}
 
+  SmallSet(const SmallSet &) = default;
+  SmallSet(SmallSet &&) = default;
+  SmallSet &operator=(SmallSet &&) = default;
+  ~SmallSet() = default;
+
+  /// Copy assignment: if copying an element throws, the small container may hold a mix of old and new elements
+  /// (possibly equivalent ones). Come back to a valid (empty) set in this case.
+  SmallSet &operator=(const SmallSet &o) {
+    if (this != &o) {
+      try {
+        _vec = o._vec;
+        _set = o._set;
+      } catch (...) {
+        _vec.clear();
+        _set.clear();
+        throw;
+      }
+    }
+    return *this;
+  }
+
   SmallSet(const SmallSet &o, const Alloc &alloc) : _vec(o._vec), _set(o._set, alloc) {}
 
   SmallSet(SmallSet &&o, const Alloc &alloc) : _vec(std::move(o._vec)), _set(std::move(o._set), alloc) {}
